@@ -166,7 +166,18 @@ pub fn gen(a: &Args) {
         let limit = limits[rng.below(limits.len() as u64) as usize];
         let runs = 1 + rng.below(3) as usize;
         out::describe_current(&format!("C05 program {} n={} len={} limit={} runs={}", name, n, len, limit, runs));
-        run_traced(&mut w, &name, m, limit, runs);
+        // a Rust panic of the implementation (e.g. an arithmetic overflow of the byte counter in a debug
+        // build) is an observation, not the end of the run
+        let what = format!("program {} n={} len={} limit={} runs={}", name, n, len, limit, runs);
+        let r = std::panic::catch_unwind(std::panic::AssertUnwindSafe(|| run_traced(&mut w, &name, m, limit, runs)));
+        if r.is_err() {
+            vh::record_events(false);
+            let _ = vh::take_events();
+            GC_CASES.with(|c| c.borrow_mut().clear());
+            w.count("impl.panic");
+            let id = w.push("ImplPanic".to_string(), true);
+            w.note(id, format!("the implementation panicked while running {}", what));
+        }
         k += 1;
     }
     w.finish(serde_json::json!({}));
